@@ -108,6 +108,12 @@ type Reply struct {
 	// RowGen streams rows without materialising them (large results).
 	RowGen func(i int) [][]byte
 	NRows  int
+	// CutAfter > 0: the connection is reset (CutReset) or closed after that many rows were written (a backend dying mid-result).
+	CutAfter int
+	CutReset bool
+	// StallAfter > 0: the backend pauses for StallFor after that many rows.
+	StallAfter int
+	StallFor   time.Duration
 }
 
 type FaultAction struct {
@@ -602,14 +608,35 @@ func (c *Conn) reply(st *Stmt, rep *Reply) bool {
 	if st.Cmd == "fieldlist" {
 		return true
 	}
+	mid := func(i int) bool { // false: the connection was cut before row i
+		if rep.StallAfter > 0 && i == rep.StallAfter {
+			verifhook.Sleep(rep.StallFor)
+		}
+		if rep.CutAfter > 0 && i == rep.CutAfter {
+			st.Outcome += fmt.Sprintf("+cut-after-%d-rows", i)
+			if rep.CutReset {
+				c.nc.Reset()
+			} else {
+				c.nc.Close()
+			}
+			return false
+		}
+		return true
+	}
 	if rep.RowGen != nil {
 		for i := 0; i < rep.NRows; i++ {
+			if !mid(i) {
+				return false
+			}
 			if pc.WritePacket(myproto.TextRow(rep.RowGen(i))) != nil {
 				return false
 			}
 		}
 	} else {
-		for _, row := range rep.Rows {
+		for i, row := range rep.Rows {
+			if !mid(i) {
+				return false
+			}
 			if pc.WritePacket(myproto.TextRow(row)) != nil {
 				return false
 			}
